@@ -58,6 +58,12 @@ def canon (pc : Bool) : Nat → Expr → Bool
   | k, .incr false _ (.var _) => decide (k ≤ 13)
   | k, .incr false _ (.index _ i) => decide (k ≤ 13) && canon false 1 i
   | k, .incr false _ (.field e) => decide (k ≤ 13) && closed e && canon false 14 e
+  -- getline forms: `getline [lv] [< file]` is read by `p.primary()` (target by `optionalLValue()`, file by `p.primary()`);
+  -- `cmd | getline [lv]` by `p.getline()` (plain context only), the command being what `p.cond()` reads up to the `|`
+  | k, .getline c t f =>
+    (t == .none || (t.isLValue && canon false 14 t)) &&
+    (if c == .none then decide (k ≤ 7) && (f == .none || canon false 14 f)
+     else f == .none && decide (k ≤ 1) && !pc && canon false 3 c)
   | _, _ => false
 
 /-- nesting depth of backward edges (an upper bound: every node counts) -/
@@ -71,7 +77,7 @@ def depth : Expr → Nat
   | .incr _ _ e => depth e + 1
   | .field e => depth e + 1
   | .index _ i => depth i + 1
-  | .getline c t f => max (depth c) (max (depth t) (depth f)) + 1
+  | .getline c t f => max (depth c) (max (depth t) (if f = .none then 0 else depth f + 1))   -- only `< file` is a backward edge
   | _ => 0
 
 end GoawkModel.C04
